@@ -9,7 +9,7 @@ SPEC = {
     "gen": ["Rotations", "GetHkl"],
     "modules": ["DiffcalcProofs.Props.C03", "DiffcalcProofs.Props.C03Sample", "DiffcalcProofs.Props.C03Sample2", "DiffcalcProofs.Props.C03Sample3",
                 "DiffcalcProofs.Props.C03Sample4", "DiffcalcProofs.Props.C03Sample5", "DiffcalcProofs.Props.C03Sample6", "DiffcalcProofs.Props.C03Sample7",
-                "DiffcalcProofs.Props.C03Sample8", "DiffcalcProofs.Props.C03Sample9", "DiffcalcProofs.Props.C03Sample10", "DiffcalcProofs.Props.C03Assembly", "DiffcalcProofs.Props.C03Detector", "DiffcalcProofs.Props.C03Reference", "DiffcalcProofs.Props.C03Assembly2"],
+                "DiffcalcProofs.Props.C03Sample8", "DiffcalcProofs.Props.C03Sample9", "DiffcalcProofs.Props.C03Sample10", "DiffcalcProofs.Props.C03Assembly", "DiffcalcProofs.Props.C03Detector", "DiffcalcProofs.Props.C03Reference", "DiffcalcProofs.Props.C03Assembly2", "DiffcalcProofs.Props.C03Assembly3"],
     "theorems": {"DiffcalcProofs.Props.C03": [
         "C03.detFromQaz_complete", "C03.filter_keeps_exact", "C03.hklMatches_exact", "C03.allOrNothing",
         "C03.asin_roots_complete", "C03.acos_roots_complete"],
@@ -32,7 +32,9 @@ SPEC = {
         "DiffcalcProofs.Props.C03Reference": ["C03.refV_entries", "C03.refConChiPhi_complete", "C03.fmec_of_refSpec", "C03.chiAndQaz_complete",
                                               "C03.refConMuPhi_complete", "C03.refConEtaPhi_complete", "C03.phiAndQaz_complete", "C03.refConChiMu_complete",
                                               "C03.shifted_roots", "C03.refConMuEta_complete", "C03.refConChiEta_complete", "C03.twoSampleReference_complete"],
-        "DiffcalcProofs.Props.C03Assembly2": ["C03.twoSampleAndReference_eq", "C03.refSamp2_complete", "C03.refSamp2_psi_complete"]},
+        "DiffcalcProofs.Props.C03Assembly2": ["C03.twoSampleAndReference_eq", "C03.refSamp2_complete", "C03.refSamp2_psi_complete"],
+        "DiffcalcProofs.Props.C03Assembly3": ["C03.triadMat_rot", "C03.calcN_triadMat", "C03.dot_rot", "C03.naz_qaz_relation", "C03.pm_roots", "C03.nazQazAngle_generic",
+                                              "C03.detOrNaz_complete", "C03.angleBetween_cos", "C03.nphiAlphaTau_tau", "C03.detRefSamp_complete"]},
     "level": "proof",
     "rule": "all 185 implemented modes: a random physical position P over (-180,180]^6 (constructed to satisfy the void / bisect / omega constraints where the "
             "mode has them), its constraint values read off with independent geometric pseudo-angles, hkl = forward model of P; P must be a regular point "
